@@ -168,14 +168,20 @@ def check_case(ctx, case):
                           {"i": i, "J": J[i], "pol": pol_g, "local": Pl[i], "depth": G.depth(s, Pl[i:i + 1])[0]})
         elif sd[i] == -1 and not isz:
             dep = float(G.depth(s, Pl[i:i + 1])[0])
-            ctx.violation({**key, "kind": "J=pol strictly outside", "abs_depth": "<=1.5e-7" if abs(dep) <= 1.5e-7 else ">1.5e-7"}, case,
+            # the library's touch band is 1e-7 of the largest extent of the mesh (it was an absolute 1e-7 before the
+            # unit-independence repair; this bucket was still absolute and a thorough run met a mesh of extent 3.7
+            # with an observer 2.3e-7 outside): bucket relative to the extent
+            ext = float(np.ptp(np.array(s["vertices"], float), axis=0).max()) if "vertices" in s else objs.size_of(s)
+            ctx.violation({**key, "kind": "J=pol strictly outside",
+                           "depth/extent": "<=1.5e-7" if abs(dep) <= 1.5e-7 * ext else ">1.5e-7"}, case,
                           {"i": i, "J": J[i], "local": Pl[i], "depth": G.depth(s, Pl[i:i + 1])[0]})
     # in_out forced, only when truthful for the whole batch
     if s["cls"] in ("Tetrahedron", "TriangularMesh") and not case["via_sensor"]:
         for mode, val in (("inside", 1), ("outside", -1)):
-            # certified truthful only clear of the library's absolute 1e-7 touch band (known finding
+            # certified truthful only clear of the library's 1e-7 (of the mesh extent) touch band (known finding
             # trimesh-inside-band-1e-7, monitored by the J checks above)
-            if np.all(sd == val) and np.all(np.abs(G.depth(s, Pl)) > 2e-7):
+            ext_m = float(np.ptp(np.array(s["vertices"], float), axis=0).max())
+            if np.all(sd == val) and np.all(np.abs(G.depth(s, Pl)) > 2e-7 * ext_m):
                 with quiet():
                     Bf = np.asarray(magpy.getB(src, P, squeeze=False, in_out=mode))[0, 0, 0].reshape(-1, 3)
                 ctx.count("inout_forced")
